@@ -440,6 +440,12 @@ public:
         m_memoryManager = theRHS.m_memoryManager;
         theRHS.m_memoryManager = temp;
 
+        // The blocks were filled according to their own deque's block
+        // size, so the block size has to travel with them.
+        const size_type tempBlockSize = m_blockSize;
+        m_blockSize = theRHS.m_blockSize;
+        theRHS.m_blockSize = tempBlockSize;
+
         theRHS.m_blockIndex.swap(m_blockIndex);
         theRHS.m_freeBlockVector.swap(m_freeBlockVector);
     }
@@ -525,7 +531,7 @@ private:
 
     MemoryManager*      m_memoryManager;
 
-    const size_type     m_blockSize;
+    size_type           m_blockSize;
 
     BlockIndexType	    m_blockIndex; 
     BlockIndexType	    m_freeBlockVector;
